@@ -17,17 +17,25 @@ TRUSTED_BASE = c01.TRUSTED_BASE + [
     "every earlier answer after each request",
     "determinism of NumPy on the same inputs; Pit.randomize (np.random, only with x0/x1 metadata) is outside the model",
 ]
-ASSUMPTIONS = ["histories up to the first request that ends in an error exit (the command-line tool terminates there)",
-               "no PIT randomisation (variable without x0/x1)"]
-RULE = ("data.hist.exh: exhaustive request sequences up to length 2 (quick) / 3 (thorough) over a 14-request menu (single / "
-        "multiple fields, axes all/no/leadtime/location/time, two inputs, with -obsrange and climatology variants) on "
-        "partially missing datasets; data.hist.rand: random sequences up to length 30 with repeats; every earlier answer is "
-        "re-read after every step, every request is repeated on a fresh Data, inputs are compared with their initial copies; "
+ASSUMPTIONS = ["histories up to the first request that ends in an error exit (the command-line tool terminates there; a "
+               "request that stops half way leaves the fields it got through in the cache without the cross-input "
+               "missing-value step)",
+               "no PIT randomisation (variable without x0/x1)",
+               "-obs FIELD: the stored field it names is not also requested directly in the same history, and -fcst does "
+               "not name the same field (the code's cache is keyed by the stored field; witness "
+               "hist_obs_field_witness.py, MERGE_NOTES)"]
+RULE = ("data.hist.exh: exhaustive request sequences up to length 2 (quick) / 3 (thorough) over a 17-request menu (single / "
+        "multiple fields incl. the PIT, a stored CDF column and a stored quantile column — slices of the inputs' 4-D "
+        "arrays —, axes all/no/leadtime/location/time, two inputs, with -obsrange and climatology variants) on "
+        "partially missing datasets; data.hist.rand: random sequences up to length 30 with repeats over every field kind "
+        "(a quarter with -obs / -fcst FIELD); every earlier answer is "
+        "re-read after every step, every request is repeated on a fresh Data, the inputs' arrays (obs, fcst, pit, the three 4-D arrays, other scores) "
+        "are compared with their initial copies; "
         "data.hist.consumers: the same with twelve real score classes (deterministic, contingency, field and PIT scores) "
         "evaluated on the requested slice between the requests — the arrays the cache hands out must be treated as "
         "read-only by their consumers")
 EXHAUSTIVE = {"quick": True, "thorough": True}
-EXHAUSTIVE_NOTE = "all sequences of length <=2 (quick) / <=3 (thorough) over the 14-request menu per dataset"
+EXHAUSTIVE_NOTE = "all sequences of length <=2 (quick) / <=3 (thorough) over the 17-request menu per dataset"
 LEVEL_TEXT = ("Lean theorem C18_history_independent: for every request history (any length, any order, any repetition) run "
               "through the heap model of both caches, each answer equals the pure model's answer for that request on a fresh "
               "dataset — by a state invariant (every cached reference points at the propagated array, possibly obsrange-masked; "
@@ -43,16 +51,19 @@ def menu(ds):
             (["obs", "fcst"], 0, "no", None), (["obs"], 0, "all", None), (["fcst"], j, "all", None),
             (["obs", "fcst"], j, "leadtime", 0), (["obs"], j, "location", 0), (["fcst", "obs"], j, "all", None),
             (["fcst"], 0, "time", 0), (["obs", "fcst"], j, "no", None), (["obs"], 0, "leadtime", 0),
-            (["fcst", "obs"], 0, "location", 0), (["obs"], j, "all", None)]
+            (["fcst", "obs"], 0, "location", 0), (["obs"], j, "all", None),
+            # the PIT, a stored CDF column and a stored quantile column: slices `[:, :, :, k]` of the inputs' 4-D arrays,
+            # cut to the common indices and masked in place in the cache
+            (["pit"], 0, "no", None), (["obs", "p@1"], j, "all", None), (["q@1/2", "fcst"], 0, "leadtime", 0)]
 
 
 def gen_ops(tier, rng):
     L = 2 if tier == "quick" else 3
-    nds = 6 if tier == "quick" else 20
+    nds = 6 if tier == "quick" else 12
     made = 0
     while made < nds:
-        ds = dg.gen_dataset(rng, n_inputs=rng.choice([2, 2, 3]), missing=rng.choice([0.1, 0.3]))
-        if dg.oracle_dims(ds) is None:
+        ds = dg.gen_dataset(rng, n_inputs=rng.choice([2, 2, 3]), missing=rng.choice([0.1, 0.3]), force=("obs", "pit", "p", "q"))
+        if dg.oracle_dims(ds) is None or any(dg.outside_domain(ds, n) for n in ("p@1", "q@1/2")):
             continue
         if rng.random() < 0.4:
             ds.cfg["obsrange"] = (0.0, 2.0)
@@ -68,6 +79,8 @@ def gen_ops(tier, rng):
             continue
         if rng.random() < 0.3:
             ds.cfg["obsrange"] = (0.0, 2.0)
+        if rng.random() < 0.25:
+            ds = dg.add_field_options(ds, rng)      # -obs FIELD / -fcst FIELD
         pool = dg.all_requests(ds, dims, rng, 12)
         seq = [rng.choice(pool) for _ in range(rng.randint(2, 30))]
         yield "data.hist.rand", dg.enc_op(ds, seq, head="datahist")
